@@ -162,7 +162,7 @@ class C20(Prop):
 
     def model_checks(self, tier):
         big = tier == "thorough"
-        c = {"MaxConns": 2, "MaxOpts": 2, "MaxRest": 3 if big else 2, "Devs": set(), "Depth": 7, "MaxFails": 0}
+        c = {"MaxConns": 2, "MaxOpts": 2, "MaxRest": 3 if big else 2, "Devs": set(), "Depth": 7, "MaxFails": 0, "SampleOneIn": 1}
         out = [dict(name="mc_ideal", consts=c, invariants=["StepInv"], constraint="Bound", view="ViewSt")]
         for d in ("C20.failed_enter_leaves_patched", "C20.unloaded_target_keeps_mock"):
             out.append(dict(name="mc_" + d.split(".")[1], consts=dict(c, Devs={d}, MaxOpts=0, MaxRest=0, Depth=4),
@@ -171,7 +171,7 @@ class C20(Prop):
 
     def generations(self, tier, seed):
         big = tier == "thorough"
-        base = {"Devs": set(), "MaxFails": 0, "MaxConns": 2}
+        base = {"Devs": set(), "MaxFails": 0, "SampleOneIn": 1, "MaxConns": 2}
         return [
             # the patch state machine: every transition, and every sequence up to a bound (re-entry, nesting, failure, exits)
             dict(name="edges_patch", mode="edges", consts=dict(base, MaxOpts=0, MaxRest=0, Depth=8)),
